@@ -277,15 +277,15 @@ class Ctx:
             **kw,
         )
 
-    def exhaustive(self, name: str, modname: str, fn_name: str, shard_args: list, scope: str) -> Stats:
+    def exhaustive(self, name: str, modname: str, fn_name: str, shard_args: list, scope: str, kind: str = "exhaustive") -> Stats:
         """Run fn(arg, stats, deadline) for every shard argument over the process pool."""
         t0 = time.time()
         jobs = [(modname, fn_name, a, self.deadline) for a in shard_args]
         part = Stats(self.prop)
         for st in self.pool().imap_unordered(_exh_worker, jobs, chunksize=1):
             part.merge(st)
-        self._note_part(name, part, t0, kind="exhaustive", scope=scope, shards=len(jobs))
-        if part.truncated:
+        self._note_part(name, part, t0, kind=kind, scope=scope, shards=len(jobs))
+        if part.truncated or kind != "exhaustive":
             self.exhaustive_all = False
         elif self.exhaustive_all is None:
             self.exhaustive_all = True
